@@ -1681,6 +1681,34 @@ fn canary_datelike_must_fail() {
     return dict(functions=[r], dropped=[d], assumptions=['DATE_ALIKE_REGEX captures four digits as group 1 and two digits (or nothing) as group 2'])
 
 
+def unit_rowcolumns(inj, scratch):
+    """check_file: the statements between `let mut items .. = Vec::new();` and `self.results_writer.write_row(..)` (verbatim): the select-list loop,
+    the grouping-key loop and the sort-key loop, on a shim world whose texts are one-byte tokens (no heap strings)."""
+    frag_begin(inj)
+    s = src('src/searcher.rs', scratch)
+    it = s.fn('check_file', impl='Searcher')
+    m1 = s.find_one(r'let\s+mut\s+items\s*:\s*Vec<\(String,\s*String\)>\s*=\s*Vec::new\(\)\s*;', s.body_span(it), what='check_file: let mut items: Vec<(String, String)> = Vec::new();')
+    m2 = s.find_one(r'self\.results_writer\.write_row\(&mut\s+buf,\s*items\)', s.body_span(it), what='check_file: self.results_writer.write_row(&mut buf, items)')
+    if not m1.end() < m2.start():
+        raise AnchorLost('check_file: items is not declared in front of write_row')
+    body = dedent(s.text[m1.end():m2.start()].strip('\n'))
+    text = 'pub mod rowcolumns {\n' + H('frag_rowcolumns_prelude.rs') + """
+impl Searcher {
+    // ---- verbatim: check_file between `let mut items .. = Vec::new();` and `self.results_writer.write_row(&mut buf, items)` ----
+    pub fn frag_columns(&mut self, entry: &DirEntry, file_info: &Option<FileInfo>, mut file_map: FileMap, mut criteria: Vec<Txt>) -> (Vec<(Txt, Txt)>, Vec<Txt>, FileMap) {
+        let mut items: Vec<(Txt, Txt)> = Vec::new();
+""" + body + """
+        (items, criteria, file_map)
+    }
+}
+""" + H('frag_rowcolumns.kani.rs') + '\n}\n'
+    inj.new_file(FRAG_FILE, text)
+    r, d = frag_record('rowcolumns::Searcher::frag_columns', 'src/searcher.rs', 'fn check_file / statements between `let mut items: Vec<(String, String)> = Vec::new();` and `self.results_writer.write_row(&mut buf, items)` (verbatim, as a method of a shim Searcher)',
+                       body, body, ['String texts -> one-byte tokens Txt; HashMap -> small shim map; Expr / Variant -> shims; get_column_expr_value -> stand-in that records which expression it evaluates, returns 100 + id and caches it in the map'],
+                       'get_column_expr_value / colorize themselves, the prologue (C06.found.accounting) and the output of the row (C09.row.protocol)')
+    return dict(functions=[r], dropped=[d])
+
+
 def unit_rowflow(inj, scratch):
     frag_begin(inj)
     s = src('src/searcher.rs', scratch)
